@@ -23,7 +23,7 @@ import numpy as np
 RULE = ("translator: the kernel trace is validated on random inputs each run; numeric support: "
         "random states |lat|<=85 deg, any lon, alt -500..20000 m, speed<=300 m/s, any attitude; "
         "3-axis sum-of-sinusoid signals up to ~3 rad/s and ~2 g; both sensor types; h in 5..40 ms halved "
-        "twice; a case is distinct by (kind, seed, index)")
+        "three times, horizons 2 s .. 10 min; a case is distinct by (kind, seed, index)")
 
 # ---- constants of Base/RealTac.v (NOT imported from pyins, so that the oracle is independent)
 A_ = 6378137.0
@@ -126,8 +126,21 @@ def make_case(rng, kind, long=False):
                   [[rng.uniform(0, 2 * math.pi) for _ in range(nj)] for _ in range(3)])
     h = rng.choice([0.04, 0.02, 0.01, 0.005])
     T = rng.choice([2.0, 4.0]) if not long else rng.choice([30.0, 120.0])
-    return dict(kind=kind, lla=[lat, lon, alt], v=v.tolist(), rph=rph, w=wsig.to_json(), f=fsig.to_json(),
+    case = dict(kind=kind, lla=[lat, lon, alt], v=v.tolist(), rph=rph, w=wsig.to_json(), f=fsig.to_json(),
                 h=h, T=T)
+    if long == 'gentle':
+        # ten minutes (about one time constant of the unstable vertical channel; a full Schuler period with free
+        # altitude leaves the domain by e^9): gently wobbling vehicle, specific force = reaction to gravity in the
+        # initial attitude plus zero-mean oscillations, so that speed and altitude stay inside the domain
+        from pyins import transform
+        C0 = transform.mat_from_rph(rph)
+        g0 = normal_gravity(lat * D2R, alt)
+        wsig = Signal([0.0, 0.0, 0.0], [[0.02 * x for x in row] for row in wa], wsig.om, wsig.p)
+        fsig = Signal((C0.T @ np.array([0.0, 0.0, -g0])).tolist(), [[0.05 * x for x in row] for row in fa],
+                      fsig.om, fsig.p)
+        v = 30.0 * d / np.linalg.norm(d)
+        case.update(v=v.tolist(), w=wsig.to_json(), f=fsig.to_json(), h=0.04, T=600.0, floor_scale=100.0)
+    return case
 
 
 # ---- running the implementation -------------------------------------------------------------
@@ -179,7 +192,7 @@ def group_errors(a, b, lat0, alt0):
     return np.array([pos, vel, att])
 
 
-FLOOR = np.array([1e-4, 1e-6, 1e-9])      # >= 1000x rounding of the implementation and of the reference over these horizons
+FLOOR0 = np.array([1e-4, 1e-6, 1e-9])      # >= 1000x rounding of the implementation and of the reference over these horizons
 GROUPS = ('position', 'velocity', 'attitude')
 
 
@@ -203,6 +216,7 @@ def halving_case(case):
     e = [group_errors(r, ref, lat0, alt0) for r in runs]
     d = [group_errors(runs[k], runs[k + 1], lat0, alt0) for k in range(NLEV - 1)]
     bad = []
+    FLOOR = FLOOR0 * case.get('floor_scale', 1.0)
     for g in range(3):
         if e[-1][g] > FLOOR[g]:
             ratios = [e[k][g] / e[k + 1][g] for k in range(NLEV - 1)]
@@ -265,7 +279,7 @@ def fd_check(c):
     return [(FD_NAMES[i], float(est[i]), float(rhs[i])) for i in range(15) if err[i] > FD_TOL[i]], err
 
 
-def numeric_support(r, n_traj, n_fd, seed_off=0):
+def numeric_support(r, n_traj, n_fd, seed_off=0, n_long=0, n_gentle=0):
     fails = []
     rng = random.Random(r.seed + 101 + seed_off)
     worst = np.zeros(15)
@@ -281,12 +295,13 @@ def numeric_support(r, n_traj, n_fd, seed_off=0):
     dist = {}
     for i in range(n_traj):
         kind = 'rate' if i % 2 == 0 else 'increment'
-        case = make_case(rng, kind)
+        case = make_case(rng, kind, long=('gentle' if i < n_gentle else (i < n_gentle + n_long)))
         bad, info = halving_case(case)
         e = info['err']
-        ratios.append([max(e[k][g] / e[k + 1][g] for k in range(NLEV - 1)) if e[-1][g] > FLOOR[g] else float('nan')
+        ratios.append([max(e[k][g] / e[k + 1][g] for k in range(NLEV - 1)) if e[-1][g] > FLOOR0[g] * case.get('floor_scale', 1.0) else float('nan')
                        for g in range(3)])
-        dist[f"{kind},h={case['h']}"] = dist.get(f"{kind},h={case['h']}", 0) + 1
+        dk = f"{kind},h={case['h']},T={case['T']}"
+        dist[dk] = dist.get(dk, 0) + 1
         r.case(('traj', r.seed, seed_off, i), sample=dict(case=case, info=info) if i < 2 else None)
         for b in bad:
             fails.append((f"{kind}-type sensor, h={case['h']}: {b}", dict(key='halving', kind='traj', case=case)))
@@ -321,7 +336,7 @@ def check(r):
     if r.tier == 'quick':
         fails = numeric_support(r, 6, 40)
     else:
-        fails = numeric_support(r, 200, 2000)
+        fails = numeric_support(r, 200, 2000, n_long=20, n_gentle=4)
     for what, rep in fails[:5]:
         r.violation(what, rep)
     if r.tier == 'thorough':
